@@ -678,3 +678,15 @@ def line_eq(w, a, b):
     if fa is None or fb is None:
         return w.eq(a, b)
     return w.and_(*[w.eq(x, y) for x, y in zip(fa[0], fb[0])], w.eq(fa[1], fb[1]))
+
+
+class Factory:
+    """protocol_factory for reader threads."""
+
+    __symex_native__ = True
+
+    def __init__(self, proto):
+        self.proto = proto
+
+    def __call__(self):
+        return self.proto
